@@ -106,10 +106,10 @@ Proof. intros Eq. unfold frame_len, locwin. rewrite Eq. lia. Qed.
 Lemma adv_on_inv i s : Inv s -> Inv (adv_on i s).
 Proof.
   intros HI. pose proof HI as [Hl Hs]. unfold adv_on.
-  destruct (find_stream i (streams s)) as [x|] eqn:Ef; [|exact HI].
+  destruct (find_stream i (streams s)) as [x|] eqn:Ef; [|apply resched_inv, HI].
   pose proof (find_stream_ok _ _ _ Hs Ef) as [Hsum [ds Hq]].
   destruct (Z.ltb (locwin (cwin s) x) 0); [apply resched_inv, HI|].
-  destruct (q x) as [|[n|] rest] eqn:Eq; [exact HI| |].
+  destruct (q x) as [|[n|] rest] eqn:Eq; [apply resched_inv, HI| |].
   - apply resched_inv.
     set (s1 := if 0 <? frame_len (cwin s) (maxf s) x then _ else s).
     assert (H1 : Inv s1).
@@ -210,9 +210,42 @@ Proof.
   apply IH, unblock_if_queued_inv, window_updated_inv, HI.
 Qed.
 
+Lemma app_write_inv i s : Inv s -> Inv (app_write i s).
+Proof.
+  intros HI. unfold app_write. destruct (find_stream i (streams s)) as [x|]; [|exact HI].
+  destruct (mleft x) as [|n r]; [exact HI|]. destruct (finished x); [exact HI|].
+  apply write_to_inv, upd_neutral_inv; [exact HI | neut].
+Qed.
+
+Lemma app_finish_inv i s : Inv s -> Inv (app_finish i s).
+Proof.
+  intros HI. unfold app_finish. destruct (find_stream i (streams s)) as [x|]; [|exact HI].
+  destruct (hasprod x); [exact HI | apply end_req_inv, HI].
+Qed.
+
+Lemma new_stream_ok i w a : stream_ok (new_stream i w a).
+Proof. destruct a; split; cbn; try reflexivity; exists []; reflexivity. Qed.
+
+Lemma render_inv i a s : Inv s -> Inv (render i a s).
+Proof.
+  intros HI. destruct a as [cs|cs|c n|pre c n]; cbn [render].
+  - apply app_finish_inv. revert s HI. induction cs as [|c cs IH]; intros s HI; cbn [fold_left]; [exact HI|].
+    apply IH, app_write_inv, HI.
+  - exact HI.
+  - apply prod_run_inv, HI.
+  - apply prod_run_inv, upd_neutral_inv; [|neut].
+    destruct (0 <? pre); [apply write_to_inv, HI | exact HI].
+Qed.
+
+Lemma request_inv i a s : Inv s -> Inv (request i a s).
+Proof.
+  intros [Hl Hs]. unfold request. apply render_inv. constructor; cbn; [exact Hl|].
+  apply Forall_app. split; [exact Hs | constructor; [apply new_stream_ok | constructor]].
+Qed.
+
 Lemma step_inv s o : Inv s -> Inv (step s o).
 Proof.
-  intros HI. destruct o as [|[|t] inc|v|v|i|i]; cbn [step].
+  intros HI. destruct o as [|[|t] inc|v|v|i|i|i a]; cbn [step].
   - destruct (scheduled s); [apply run_iter_inv, HI | exact HI].
   - apply fire_inv, conn_window_updated_inv. destruct HI; constructor; assumption.
   - destruct (find_stream (S t) (streams s)); [|apply fire_inv, HI].
@@ -220,31 +253,17 @@ Proof.
   - apply fire_inv, conn_window_updated_inv. destruct HI as [Hl Hs]. constructor; cbn; [exact Hl|].
     apply Forall_mapf; [exact Hs|]. intros y0. apply neutral_ok. neut.
   - destruct HI; constructor; assumption.
-  - destruct (find_stream i (streams s)) as [x|]; [|exact HI].
-    destruct (mleft x) as [|n r]; [exact HI|]. destruct (finished x); [exact HI|].
-    apply write_to_inv, upd_neutral_inv; [exact HI | neut].
-  - destruct (find_stream i (streams s)) as [x|]; [|exact HI].
-    destruct (hasprod x); [exact HI | apply end_req_inv, HI].
+  - apply app_write_inv, HI.
+  - apply app_finish_inv, HI.
+  - apply request_inv, HI.
 Qed.
 
 Lemma steps_inv ops : forall s, Inv s -> Inv (fold_left step ops s).
 Proof. induction ops as [|o r IH]; intros s H; cbn; [exact H|]. apply IH, step_inv, H. Qed.
 
-Lemma new_stream_ok i w a : stream_ok (new_stream i w a).
-Proof. destruct a; split; cbn; try reflexivity; exists []; reflexivity. Qed.
-
-Lemma render_inv i a s : Inv s -> Inv (render i a s).
-Proof.
-  intros HI. destruct a as [cs|cs|c n]; cbn [render]; [| exact HI | apply prod_run_inv, HI].
-  apply step_inv. revert s HI. induction cs as [|c cs IH]; intros s HI; cbn [fold_left]; [exact HI|].
-  apply IH, step_inv, HI.
-Qed.
-
 Lemma setup_inv apps : forall k s, Inv s -> Inv (setup k apps s).
 Proof.
-  induction apps as [|a r IH]; intros k s HI; cbn [setup]; [exact HI|].
-  apply IH, render_inv. destruct HI as [Hl Hs]. constructor; cbn; [exact Hl|].
-  apply Forall_app. split; [exact Hs | constructor; [apply new_stream_ok | constructor]].
+  induction apps as [|a r IH]; intros k s HI; cbn [setup]; [exact HI|]. apply IH, request_inv, HI.
 Qed.
 
 Lemma init_inv w apps : Inv (init w apps).
@@ -324,3 +343,167 @@ Example ex_connection_window_resumes_producer :
                [Adv; Adv; Adv; Adv; Adv; Adv; Adv; Adv; Adv; Adv; Adv; Adv; Adv; Adv; WU 0 65535] in
   In (EResume 3) (log s) /\ exists x, find_stream 3 (streams s) = Some x /\ body x = 130000 /\ finished x = true.
 Proof. vm_compute. split; [auto 20 | eexists; split; [reflexivity | auto]]. Qed.
+
+(** preamble == window written after the sender parked (sent at once), then a push producer registered at an
+    exhausted window: it is paused by its first write and resumed when the window reopens *)
+Example ex_producer_registered_at_exhausted_window_completes :
+  let s := run 100 [] [Adv; Req 1 (PreProducer 100 60 4); Adv; WU 1 100; Adv; Adv; WU 1 1000; Adv; Adv; Adv; Adv] in
+  In (EEnd 1 340 340) (log s) /\ streams s = [].
+Proof. vm_compute. auto 20. Qed.
+
+(** ---- no lost wake-up of the sending loop: a parked sender means every stream is blocked in the tree ---- *)
+Definition all_blocked (l : list stream) : Prop := Forall (fun x => blocked x = true) l.
+Definition Parked (s : st) : Prop := scheduled s = false -> all_blocked (streams s).
+
+Lemma split_after_app i l a b : split_after i l = Some (a, b) -> l = a ++ b.
+Proof.
+  revert a b. induction l as [|x r IH]; intros a b H; cbn in H; [discriminate|].
+  destruct (Nat.eqb (sid x) i).
+  - inversion H; subst. reflexivity.
+  - destruct (split_after i r) as [[a' b']|]; [|discriminate]. inversion H; subst. cbn. f_equal. apply IH. reflexivity.
+Qed.
+
+Lemma rotation_blocked s : all_blocked (rotation s) -> all_blocked (streams s).
+Proof.
+  unfold rotation, all_blocked. destruct (last s) as [i|]; [|auto].
+  destruct (split_after i (streams s)) as [[a b]|] eqn:E; [|auto].
+  apply split_after_app in E. rewrite E. intros H. apply Forall_app in H. apply Forall_app. tauto.
+Qed.
+
+Lemma adv_on_scheduled i s : scheduled (adv_on i s) = true.
+Proof.
+  unfold adv_on. destruct (find_stream i (streams s)) as [x|]; [|reflexivity].
+  destruct (Z.ltb (locwin (cwin s) x) 0); [reflexivity|].
+  destruct (q x) as [|[n|] rest]; reflexivity.
+Qed.
+
+Lemma run_iter_parked s : Parked (run_iter s).
+Proof.
+  unfold run_iter, Parked. destruct (pick s) as [i|] eqn:Ep.
+  - rewrite adv_on_scheduled. discriminate.
+  - intros _. cbn. apply rotation_blocked. unfold pick in Ep.
+    destruct (find (fun x => negb (blocked x)) (rotation s)) eqn:Ef; [discriminate|].
+    unfold all_blocked. rewrite Forall_forall. intros x Hx.
+    pose proof (find_none _ _ Ef x Hx) as H. cbn in H. destruct (blocked x); [reflexivity | discriminate].
+Qed.
+
+Lemma fire_parked s : Parked (fire s).
+Proof.
+  unfold fire. destruct (scheduled s) eqn:E; [|apply run_iter_parked]. unfold Parked. rewrite E. discriminate.
+Qed.
+
+(** changes that leave [blocked] alone keep the fact *)
+Definition keeps_blocked (f : stream -> stream) : Prop := forall y, blocked (f y) = blocked y.
+
+Lemma upd_parked i f s : keeps_blocked f -> Parked s -> Parked (upd i f s).
+Proof.
+  intros Hf HP Hs. specialize (HP Hs). unfold all_blocked in *. cbn. unfold upd_stream. apply Forall_map.
+  eapply Forall_impl; [|exact HP]. intros y Hy. cbn. destruct (Nat.eqb (sid y) i); [rewrite Hf|]; exact Hy.
+Qed.
+
+Lemma emit_parked e s : Parked s -> Parked (emit e s).
+Proof. intros H. exact H. Qed.
+
+Ltac kb := intros y; try reflexivity.
+
+Lemma app_chunk_keeps n : keeps_blocked (app_chunk n).
+Proof. intros y. unfold app_chunk. destruct (finished y); reflexivity. Qed.
+
+Lemma flow_blocked_parked i s : Parked s -> Parked (flow_blocked i s).
+Proof.
+  intros HP. unfold flow_blocked. destruct (find_stream i (streams s)); [|exact HP].
+  destruct (hasprod s0 && producing s0); [|exact HP]. apply emit_parked, upd_parked; [kb | exact HP].
+Qed.
+
+Lemma write_to_parked i n s : Parked s -> Parked (write_to i n s).
+Proof.
+  intros HP. unfold write_to. destruct (find_stream i (streams s)) as [x0|]; [|exact HP].
+  destruct (finished x0); [exact HP|].
+  set (s1 := upd i (app_chunk n) s).
+  assert (H1 : Parked s1) by (apply upd_parked; [apply app_chunk_keeps | exact HP]).
+  set (s2 := match find_stream i (streams s1) with Some x => _ | None => s1 end).
+  assert (H2 : Parked s2).
+  { unfold s2. destruct (find_stream i (streams s1)); [|exact H1].
+    destruct (0 <? locwin (cwin s1) s0); [apply fire_parked | exact H1]. }
+  destruct (find_stream i (streams s2)); [|exact H2].
+  destruct (rem_out (cwin s2) s0 <=? 0); [apply flow_blocked_parked, H2 | exact H2].
+Qed.
+
+Lemma end_req_parked i s : Parked s -> Parked (end_req i s).
+Proof.
+  intros HP. unfold end_req. destruct (find_stream i (streams s)) as [x0|]; [|exact HP].
+  destruct (finished x0); [exact HP | apply fire_parked].
+Qed.
+
+Lemma prod_loop_parked fuel i : forall s, Parked s -> Parked (prod_loop fuel i s).
+Proof.
+  induction fuel as [|f IH]; intros s HP; cbn [prod_loop]; [exact HP|].
+  destruct (find_stream i (streams s)) as [x|]; [|exact HP].
+  destruct (hasprod x && producing x); [|exact HP].
+  destruct (pleft x) as [|k]; [exact HP|].
+  apply IH, write_to_parked, upd_parked; [kb | exact HP].
+Qed.
+
+Lemma prod_run_parked i s : Parked s -> Parked (prod_run i s).
+Proof.
+  intros HP. unfold prod_run. set (s1 := prod_loop _ i s).
+  assert (H1 : Parked s1) by (apply prod_loop_parked, HP).
+  destruct (find_stream i (streams s1)) as [x|]; [|exact H1].
+  destruct (hasprod x && Nat.eqb (pleft x) 0); [|exact H1].
+  apply end_req_parked, upd_parked; [kb | exact H1].
+Qed.
+
+Lemma app_write_parked i s : Parked s -> Parked (app_write i s).
+Proof.
+  intros HP. unfold app_write. destruct (find_stream i (streams s)) as [x|]; [|exact HP].
+  destruct (mleft x) as [|n r]; [exact HP|]. destruct (finished x); [exact HP|].
+  apply write_to_parked, upd_parked; [kb | exact HP].
+Qed.
+
+Lemma app_finish_parked i s : Parked s -> Parked (app_finish i s).
+Proof.
+  intros HP. unfold app_finish. destruct (find_stream i (streams s)) as [x|]; [|exact HP].
+  destruct (hasprod x); [exact HP | apply end_req_parked, HP].
+Qed.
+
+Lemma request_parked i a s : Parked s -> Parked (request i a s).
+Proof.
+  intros HP. unfold request.
+  set (s0 := set_streams (streams s ++ [new_stream i (iw s) a]) s).
+  assert (H0 : Parked s0).
+  { intros Hs. unfold s0, all_blocked. cbn. apply Forall_app. split; [apply HP, Hs|].
+    constructor; [destruct a; reflexivity | constructor]. }
+  destruct a as [cs|cs|c n|pre c n]; cbn [render].
+  - apply app_finish_parked. generalize dependent s0. induction cs as [|c cs IH]; intros s0 H0; cbn [fold_left];
+      [exact H0|]. apply IH, app_write_parked, H0.
+  - exact H0.
+  - apply prod_run_parked, H0.
+  - apply prod_run_parked, upd_parked; [kb|]. destruct (0 <? pre); [apply write_to_parked, H0 | exact H0].
+Qed.
+
+Lemma step_parked s o : Parked s -> Parked (step s o).
+Proof.
+  intros HP. destruct o as [|[|t] inc|v|v|i|i|i a]; cbn [step].
+  - destruct (scheduled s) eqn:E; [apply run_iter_parked | exact HP].
+  - apply fire_parked.
+  - destruct (find_stream (S t) (streams s)); apply fire_parked.
+  - apply fire_parked.
+  - exact HP.
+  - apply app_write_parked, HP.
+  - apply app_finish_parked, HP.
+  - apply request_parked, HP.
+Qed.
+
+Lemma setup_parked apps : forall k s, Parked s -> Parked (setup k apps s).
+Proof.
+  induction apps as [|a r IH]; intros k s HP; cbn [setup]; [exact HP|]. apply IH, request_parked, HP.
+Qed.
+
+Lemma run_parked w apps ops : Parked (run w apps ops).
+Proof.
+  unfold run.
+  assert (H0 : Parked (init w apps)).
+  { unfold init. apply setup_parked. unfold Parked. cbn. discriminate. }
+  revert H0. generalize (init w apps). induction ops as [|o r IH]; intros s H; cbn; [exact H|].
+  apply IH, step_parked, H.
+Qed.
